@@ -85,7 +85,14 @@ void Connector::stopInLoop()
   if (state_ == kConnecting)
   {
     setState(kDisconnected);
-    int sockfd = removeAndResetChannel();
+    // Not removeAndResetChannel(): it defers the reset of channel_ to a queued
+    // functor because it may be running inside Channel::handleEvent.  stopInLoop()
+    // is itself always a queued functor, so the channel can go at once; a
+    // connect() made before the deferred reset ran found channel_ still set.
+    channel_->disableAll();
+    channel_->remove();
+    int sockfd = channel_->fd();
+    channel_.reset();
     retry(sockfd);
   }
 }
